@@ -279,6 +279,10 @@ def full_ops(cfg, ops, with_tail):
 def gen(rng, tier, n):
     import vlib
     scen = corpus_scenarios() + family(rng, tier)
+    if tier == "thorough":
+        # two more instantiations of the family (other names, label lengths, RNG seeds)
+        for rep in (2, 3):
+            scen += [("%s#%d" % (n_, rep), c, o, t) for (n_, c, o, t) in family(rng, tier)]
     exe = vlib.build_harness("allocfail", C_SRCS, "asan", WRAPS)
     rc, per, err = run_baselines(exe, scen, vlib.CACHE)
     cases = []
